@@ -392,6 +392,15 @@ def _rnd_geo(rng):
     return _rnd_len(rng, "rw", 0, 60), _rnd_len(rng, "rh", 0, 60)
   org = pos = ext = "none"
   r = rng.random()
+  if rng.random() < 0.06:
+    # the geometry that the filter itself would produce for some safe area (a document that has been through it already, or
+    # an author who laid the region out over the safe area): it is still a region like any other
+    sa = rng.choice([0, 5, 10, 10, 17, 30])
+    org = "%s%%,%s%%" % (sa, sa)
+    ext = "%s%%,%s%%" % (100 - 2 * sa, 100 - 2 * sa)
+    if rng.random() < 0.3:
+      pos = "left %s%% top %s%%" % (sa, sa)
+    return org, pos, ext
   if r < 0.45:
     org = ",".join(pair("o"))
   elif r < 0.75:
@@ -421,6 +430,22 @@ def _rnd_timing(rng, p=0.35):
   b = rng.choice([-1, 0, 1, 2, 4])
   e = rng.choice([-1, -1, 3, 5, 8, 12])
   return b, e
+
+
+def huge_doc(rng, count):
+  """One division holding `count` paragraphs (a feature-length subtitle file): depth of any per-sibling recursion = count."""
+  d = random_doc(rng)
+  while not d["nodes"] or len([n for n in d["nodes"] if n["kind"] == "div"]) == 0:
+    d = random_doc(rng)
+  div = next(i for i, n in enumerate(d["nodes"], 1) if n["kind"] == "div")
+  tid = max([n["tid"] for n in d["nodes"]] + [0])
+  for k in range(count):
+    b = 100 + 2 * k
+    d["nodes"].append({"kind": "p", "par": div, "reg": "", "b": b, "e": b + 2, "sty": [], "steps": [], "tid": 0, "color": "none", "bg": "none", "ta": "none"})
+    p = len(d["nodes"])
+    tid += 1
+    d["nodes"].append({"kind": "span", "par": p, "reg": "", "b": -1, "e": -1, "sty": [], "steps": [], "tid": tid, "color": "none", "bg": "none", "ta": "none"})
+  return d
 
 
 def random_doc(rng):
